@@ -62,8 +62,10 @@ def run(ctx):
     events, unreal, nid = [], {}, 1
     meta = {}
     for k in range(shards):
-        if out[k].get("st") == "crashed":
-            raise core.Machinery("C07 driver crashed")
+        if out[k].get("st") in ("crashed", "timeout"):
+            ctx.violation("M2", "a call made by the driver %s" % ("did not terminate" if out[k]["st"] == "timeout" else "crashed the interpreter"),
+                          dict(mode="shard", shard=k), cls=out[k]["st"])
+            out[k] = {"events": [], "hists": []}
         for h, evs in zip(parts[k], out[k]["hists"]):
             first = True
             for e in evs:
